@@ -3,6 +3,7 @@
 package chain_test
 
 import (
+	"context"
 	"fmt"
 	"math/rand"
 	"os"
@@ -13,6 +14,8 @@ import (
 
 	"github.com/ava-labs/hypersdk/chain"
 	"github.com/ava-labs/hypersdk/fees"
+
+	internalfees "github.com/ava-labs/hypersdk/internal/fees"
 )
 
 var (
@@ -353,6 +356,15 @@ func TestVerifChainExec(t *testing.T) {
 			}
 			if recs == nil {
 				recs = []txRec{}
+			}
+			if (s+b)%2 == 0 {
+				// admission earlier in time: the node pre-executed the same transaction objects when they were submitted,
+				// against the unit prices and the state of that moment (chain.PreExecutor does exactly this call).  What a
+				// transaction is charged in the block must not depend on that history.
+				admFM := internalfees.NewManager(feeBytes(fees.Dimensions{uint64(2 + (s+b)%5), 3, 2, 4, 1 + uint64(s%3)}))
+				for _, tx := range txs {
+					_ = tx.PreExecute(context.Background(), admFM, w.bh, w.rules, parentView, ts-int64((s%3)*1000))
+				}
 			}
 			cfgs := []execCfg{{Cores: 1, Fetch: 1, AuthW: 0}, {Cores: 2 + r.Intn(3), Fetch: 1 + r.Intn(4), AuthW: 1 + r.Intn(3), Gated: true},
 				{Cores: []int{8, 16}[r.Intn(2)], Fetch: []int{4, 16}[r.Intn(2)], AuthW: 4, Gated: true}, {Cores: 4, Fetch: 2, AuthW: 2}}
